@@ -253,7 +253,7 @@ class Model(LPModel):
             eye_indices = [item for inner in primal.qmat for item in inner]
             eye_block = dual_lp.linear[eye_indices, :]
             head_pos = np.cumsum([0] + [len(qc) for qc in primal.qmat[:-1]])
-            if (len(eye_block.data) + 1 == len(eye_block.indptr) and
+            if ((np.diff(eye_block.indptr) == 1).all() and
                     (abs(eye_block.data) == 1).all() and
                     (eye_block.data[head_pos] == 1).all() and
                     len(set(eye_block.indices)) == len(eye_block.indices)):
